@@ -1,36 +1,7 @@
 //! Correspondence and oracle harness for the Lean model of scratchstack-aws-signature.
 //! Usage: harness <C01..C19|ALL> <quick|thorough> [seed]   |   harness replay <file>
-mod case;
-mod driver;
-mod gen;
-mod imp;
-mod props_direct;
-mod props_validate;
-mod props_validate2;
-mod props_runtime;
-mod refspec;
-mod util;
-
-use util::*;
-
-pub struct Ctx {
-    pub rng: Rng,
-    pub drv: driver::Driver,
-    pub rep: Report,
-    pub thorough: bool,
-    pub seed: u64,
-}
-
-impl Ctx {
-    /// Scale a count by tier.
-    pub fn n(&self, quick: usize, thorough: usize) -> usize {
-        if self.thorough {
-            thorough
-        } else {
-            quick
-        }
-    }
-}
+use sigv4_verif_harness::*;
+use sigv4_verif_harness::util::*;
 
 fn main() {
     let args: Vec<String> = std::env::args().collect();
@@ -40,6 +11,17 @@ fn main() {
     }
     std::panic::set_hook(Box::new(|_| {}));
     let prop = args[1].clone();
+    if prop == "c18child" {
+        props_runtime::c18_child(&args[2], args[3].parse().unwrap());
+        return;
+    }
+    if prop == "C07" {
+        // the tracer is a separate binary (it replaces memcmp/bcmp for its own process only)
+        let exe = std::env::current_exe().unwrap().with_file_name("cttrace");
+        let seed = args.get(3).cloned().unwrap_or_else(|| "20260929".into());
+        let st = std::process::Command::new(exe).arg(&args[2]).arg(seed).status().expect("cttrace");
+        std::process::exit(st.code().unwrap_or(2));
+    }
     let thorough = args[2] == "thorough";
     let seed: u64 = args.get(3).and_then(|s| s.parse().ok()).unwrap_or(20260929);
     let mut ctx = Ctx { rng: Rng::new(seed), drv: driver::Driver::spawn(), rep: Report::default(), thorough, seed };
